@@ -1,4 +1,5 @@
 import Moclo.Proofs.Cut
+import Moclo.Proofs.Screen
 import Moclo.Props.C02
 import Moclo.Tables.Kits
 import Moclo.Tables.Enzymes
@@ -110,6 +111,44 @@ theorem placeholder_target_isRotated (w : Word) (i a1 b2 : Nat) (hi : i < w.leng
   rw [placeholder_target_tile _ _ _ h1 (by rw [window_length w i (Nat.le_of_lt hi)]; exact h2),
     window_eq_rotate w i (Nat.le_of_lt hi)]
   exact (List.IsRotated.forall _ _).trans (List.IsRotated.forall _ _)
+
+/-- the cutters in play have non-palindromic sites spelt with nucleotides (kernel-checked on the regenerated
+tables: the 58 supported enzymes and the cutters of the 85 kit classes) -/
+theorem cutter_sites_plain :
+    (∀ r ∈ Generated.enzymes, r.site.all Nt.isBase = true ∧ r.site ≠ rcNt r.site) ∧
+    (∀ r ∈ Generated.kits, r.site.all Nt.isBase = true ∧ r.site ≠ rcNt r.site) := by
+  constructor
+  · intro r hr
+    have := List.all_eq_true.mp Tables.enzymes_sites r hr
+    simpa using this
+  · intro r hr
+    have := List.all_eq_true.mp Tables.kits_sites r hr
+    simpa using this
+
+/-- **no further cut strictly inside the target** (module classes whose sites flank the target — the generic
+module structure and every signature-typed module structure): if the class accepts the record, i.e. the match
+passes the illegal-site screen, then at no position strictly inside the target `[a1, b2)` of the matched
+window does the enzyme cut, on either strand -/
+theorem no_inner_cut (g : Geom) (up down : List Nt) (hu : up.length = g.k) (hd : down.length = g.k)
+    (hbase : g.site.all Nt.isBase = true) (hnp : g.site ≠ rcNt g.site) (hs1 : 1 ≤ g.site.length)
+    {text : Word} {ms : List Nat} {e : Nat}
+    (h : Run (moduleStructure g) text 0 ms e ∨ Run (modulePartStructure g up down) text 0 ms e)
+    (hscreen : validCuts g (text.take e) ≤ 2) :
+    ∃ a1 b2, ms = [a1, a1 + g.k, a1 + g.k, b2, b2, b2 + g.k] ∧ a1 = g.site.length + g.off ∧
+      ∀ c, a1 < c → c < b2 →
+        siteAt g.site text (c - g.off - g.site.length) = false ∧ siteAt (rcNt g.site) text (c + g.k + g.off) = false := by
+  have mg2 : markless ([.cls .N, .star .N true, .cls .N] : Pat) := by
+    intro t ht; simp at ht; rcases ht with rfl | rfl | rfl <;> rfl
+  rcases h with h | h
+  · rw [moduleStructure_threeGroup] at h
+    exact no_inner_cut_of_screen hbase hnp hs1 mg2 (isFixed_nRun' g.k) (isFixed_nRun' g.k) h hscreen
+  · have hp : modulePartStructure g up down = threeGroup (lits g.site ++ nRun g.off) (lits up)
+        [.cls .N, .star .N true, .cls .N] (lits down) (nRun g.off ++ lits (rcNt g.site)) := by
+      simp [modulePartStructure, threeGroup, List.append_assoc]
+    rw [hp] at h
+    have f1 : isFixed g.k (lits up) = true := by rw [← hu]; simp [isFixed, lits]
+    have f3 : isFixed g.k (lits down) = true := by rw [← hd]; simp [isFixed, lits]
+    exact no_inner_cut_of_screen hbase hnp hs1 mg2 f1 f3 h hscreen
 
 /-! non-vacuity: the toy module of C01/C02 -/
 example : cutAligned C02.g C02.c.pat = true := by decide
